@@ -159,7 +159,10 @@ impl FromStr for PrettyDecimal {
                         format = Some(Format::Plain);
                     }
                     has_digit = true;
-                    mantissa = mantissa * 10 + (c as u32 - '0' as u32) as i128;
+                    mantissa = mantissa
+                        .checked_mul(10)
+                        .and_then(|x| x.checked_add((c - b'0') as i128))
+                        .ok_or(rust_decimal::Error::ExceedsMaximumPossibleValue)?;
                     scale = scale.map(|x| x + 1);
                 }
                 _ => {
